@@ -72,7 +72,8 @@ fn data_set(xs: &mut Xstate) -> Xresult {
     let d2 = p.downcast_mut::<D2Context>().ok_or(Xerr::TypeError)?;
     let y = xs.pop_data()?.to_usize()?;
     let x = xs.pop_data()?.to_usize()?;
-    let index = y * d2.width + x;
+    // coordinates beyond the canvas are simply out of bounds
+    let index = y.checked_mul(d2.width).and_then(|i| i.checked_add(x)).unwrap_or(usize::MAX);
     let color = if let Some(pal) = &d2.pal {
         let pal_idx = d2.color as usize;
         *pal.get(pal_idx).ok_or(Xerr::out_of_bounds(pal_idx, pal.len()))?
@@ -91,7 +92,8 @@ fn data_get(xs: &mut Xstate) -> Xresult {
     let d2 = p.downcast_mut::<D2Context>().ok_or(Xerr::TypeError)?;
     let y = xs.pop_data()?.to_usize()?;
     let x = xs.pop_data()?.to_usize()?;
-    let index = y * d2.width + x;
+    // coordinates beyond the canvas are simply out of bounds
+    let index = y.checked_mul(d2.width).and_then(|i| i.checked_add(x)).unwrap_or(usize::MAX);
     if let Some(p) = d2.data.get(index) {
         xs.push_data(Xcell::from(*p))
     } else {
